@@ -27,3 +27,16 @@ prop("C02", "exploration",
      "each run draws a DAG (3-25 blocks, inline maps/lists holding links, shared sub-DAGs, raw/identity leaves), a selector from the selector grammar, a 4-way store split and a scheduler profile from one tape; distinct = distinct trace hash (hash chain over per-step effect sets); non-trivial = at least one non-default scheduling decision and more than 5 steps",
      _b(2000, 60, 150000, 1500),
      probes=[])
+
+prop("C24", "exploration",
+     "each run draws a DAG, selector, requestor-heavy store split (responder complete) and optional user do-not-send-first-blocks / do-not-send-cids extensions; the wire of the real two-node exchange is observed; distinct = distinct trace hash; non-trivial = non-default scheduling and more than 5 steps",
+     _b(2000, 60, 100000, 1200))
+prop("C07", "exploration",
+     "each run draws a DAG, selector and a link budget N from {1,2,3,needed-1,needed,needed+1,needed+10} set globally, per request by hook, or both, on the requestor or the responder; needed = link loads of an independent reference traversal; distinct = distinct trace hash",
+     _b(2000, 60, 100000, 1200))
+prop("C03", "exploration",
+     "one real responder and a scripted requestor speaking through the real codec; each run draws DAG, responder store (blocks missing at random, occasionally the root), 1-2 requests with selectors and do-not-send-first-blocks (0,1,2,len-1,len,len+3), do-not-send-cids and dedup-by-key combinations; wire output reassembled per request and compared with the reference traversal over the responder store; distinct = distinct trace hash",
+     _b(2000, 60, 100000, 1200))
+
+NOT_APPLICABLE = {}
+HOOK_COMMITS = ["a570d77", "0974401", "833dae9"]
